@@ -638,6 +638,14 @@ class MQTTProtocol(MQTTBaseProtocol):
             del self.factory.windowPubRelease[self.addr][k]
             request.deferred.errback(reason)
 
+        # messages still waiting for a free window slot belong to the session too
+        for request in list(self.factory.queuePublishTx[self.addr]):
+            if inherited and request.protocol is self:
+                continue
+            self.factory.queuePublishTx[self.addr].remove(request)
+            if request.msgId:   # QoS 0 deferreds have already fired
+                request.deferred.errback(reason)
+
 
     # -------------------------------------
     # Helper methods (publisher/subscriber)
